@@ -44,6 +44,10 @@ fn main() {
         worker::worker_main();
         return;
     }
+    if args[0] == "c20op" {
+        props::c20::child_main(&args[1]);
+        return;
+    }
     if args[0] == "setup" {
         println!("vharness built; nothing else to set up");
         return;
